@@ -15,6 +15,7 @@ import (
 func init() {
 	streams["tree"] = streamTree
 	streams["treefile"] = streamTreeFile
+	streams["treestale"] = streamTreeStale
 }
 
 // Streams for z.Tree (z/btree.go).
@@ -933,5 +934,72 @@ func streamTreeFile(r *Run) {
 			c.r.Count("case_reopen_and_page_reuse")
 		}
 		c.finish()
+	}
+}
+
+// streamTreeStale replays the witness of the stale-slice defect in Tree.Set's root split
+// (btree.go: `right := t.split(1); left := t.newNode(root.bits()); … right.maxKey()`): when the
+// newNode call for `left` is the one that grows an mmap-backed buffer (Buffer.Grow -> Truncate ->
+// mremap may move the mapping), `right` still points into the old mapping and the next read
+// faults.  In-memory trees are not affected with the Go allocator (the old slice stays readable).
+//
+// Construction (page size 80 so that it takes milliseconds; the same happens with the default
+// 4096-byte pages after 4,113,022+23,936 Sets, file size 268,956,672): fill until the frontier is
+// the first page that does not fit the initial 1 MiB file, release most pages with DeleteBelow,
+// rebuild through the free list so that it runs out exactly at `right` of a root split.
+// No trace is written (the model has no notion of a stale slice); the verdict is the oracle's.
+func streamTreeStale(r *Run) {
+	defer z.VerifSetPageSize(os.Getpagesize())
+	debug.SetPanicOnFault(true)
+	const ps = 80
+	z.VerifSetPageSize(ps)
+	path := filepath.Join(treeWorkDir(), fmt.Sprintf("verif_tree_stale_%d.bin", os.Getpid()))
+	os.Remove(path)
+	defer os.Remove(path)
+	t, err := z.NewTreePersistent(path)
+	if err != nil {
+		r.Fail("C16", "NewTreePersistent: "+err.Error(), "stream=treestale")
+		return
+	}
+	defer func() {
+		defer func() { recover() }()
+		t.Close()
+	}()
+	r.Cases++
+	pstar := ((1 << 20) - 8) / ps
+	input := fmt.Sprintf("persistent tree, page size %d: Set(k,v) for k=10,13,16,… (v=5 when (k/3)%%4334==0, else 1) until NumPages=%d; DeleteBelow(3); then Set(2^40+j,7) for j=0,1,2,… until the root splits while the free list runs out", ps, pstar-1)
+	k := uint64(10)
+	for t.Stats().NumPages < pstar-1 {
+		v := uint64(1)
+		if (k/3)%4334 == 0 {
+			v = 5
+		}
+		t.Set(k, v)
+		k += 3
+		r.Count("set")
+	}
+	if t.Stats().NumPages != pstar-1 {
+		r.Count("construction_missed_the_frontier")
+		return
+	}
+	t.DeleteBelow(3)
+	for j := uint64(0); j < 20000; j++ {
+		before := t.Stats().NumPages
+		var p any
+		func() {
+			defer func() { p = recover() }()
+			t.Set(1<<40+j, 7)
+		}()
+		r.Count("set")
+		if p != nil {
+			r.Nontriv++
+			r.FailSig("C16", "F10", fmt.Sprintf("Tree.Set panicked on a legal key of a persistent tree (stale `right` slice after the buffer was remapped during the root split): %v", p),
+				fmt.Sprintf("%s; the faulting call is Set(%d,7)", input, uint64(1<<40)+j))
+			return
+		}
+		if t.Stats().NumPages > before {
+			r.Count("frontier_moved_without_fault")
+			return
+		}
 	}
 }
